@@ -641,6 +641,8 @@ _R = "phyclone/run.py"
 _SB = "phyclone/smc/samplers/base.py"
 _CONC = "phyclone/mcmc/concentration.py"
 SELFTEST = [
+    {"name": "benign-T3-worker-exception-bound-by-walrus", "kind": "benign", "file": "phyclone/run.py", "old": "                exception = future.exception()\n                if exception is not None:\n                    raise exception\n", "new": "                if (exception := future.exception()) is not None:\n                    raise exception\n"},
+    {"name": "T3-walrus-exception-raised-when-absent", "kind": "break", "rule": "T3", "file": "phyclone/run.py", "old": "                exception = future.exception()\n                if exception is not None:\n                    raise exception\n", "new": "                if (exception := future.exception()) is None:\n                    raise RuntimeError(exception)\n"},
     {"name": "T6-timer-started-before-the-timed-loop", "kind": "break", "rule": "T6", "file": "phyclone/run.py", "old": "    trace = setup_trace(timer, tree, tree_dist)\n", "new": "    trace = setup_trace(timer, tree, tree_dist)\n    timer.start()\n"},
     {"name": "benign-timer-started-and-stopped-before-the-loop", "kind": "benign", "file": "phyclone/run.py", "old": "    trace = setup_trace(timer, tree, tree_dist)\n", "new": "    trace = setup_trace(timer, tree, tree_dist)\n    timer.start()\n    timer.stop()\n"},
     {"name": "T2-outlier-prior-guard-on-the-other-term", "kind": "break", "rule": ["T2", "T3"], "file": "phyclone/tree/distributions.py", "old": "                if data_point.outlier_prob != 0:\n                    if node == outlier_node_name:", "new": "                if data_point.outlier_prob_not != 0:\n                    if node == outlier_node_name:"},
